@@ -35,6 +35,33 @@ func genOutage(t *rapid.T) OutageCase {
 	}
 }
 
+// softTB turns the test-bed's own t.Fatalf (e.g. "listen failed on grpc socket ... address already in
+// use" when the stopped member's socket is still around) into an error: a member that cannot be
+// restarted is a broken test bed, not a failed property.
+type softTB struct{ testing.TB }
+
+type softFail string
+
+func (s softTB) Fatalf(format string, a ...any) { panic(softFail(fmt.Sprintf(format, a...))) }
+func (s softTB) Fatal(a ...any)                 { panic(softFail(fmt.Sprint(a...))) }
+func (s softTB) FailNow()                       { panic(softFail("FailNow")) }
+func (s softTB) Errorf(format string, a ...any) { s.TB.Logf("test bed: "+format, a...) }
+func (s softTB) Error(a ...any)                 { s.TB.Log(append([]any{"test bed:"}, a...)...) }
+
+func restartSoftly[T any](restart func(T) error) (err error) {
+	defer func() {
+		if r := recover(); r != nil {
+			if sf, ok := r.(softFail); ok {
+				err = fmt.Errorf("%s", string(sf))
+				return
+			}
+			panic(r)
+		}
+	}()
+	var tb any = softTB{curT}
+	return restart(tb.(T))
+}
+
 var outageBroken bool // the embedded member could not be restarted: later cases are skipped, not failed
 
 func runOutage(x *vt.Ctx, c OutageCase) *vt.Finding {
@@ -67,7 +94,7 @@ func runOutage(x *vt.Ctx, c OutageCase) *vt.Finding {
 	time.Sleep(ttl * time.Duration(c.OutageX10) / 10)
 	var rerr error
 	for i := 0; i < 3; i++ {
-		if rerr = cluster.Members[0].Restart(curT); rerr == nil {
+		if rerr = restartSoftly(cluster.Members[0].Restart); rerr == nil {
 			break
 		}
 		time.Sleep(time.Second)
